@@ -722,12 +722,12 @@ func Run(cfg Config) Result {
 			"A hash case is non-trivial if it is valid and is a sibling, or has an algorithm field > 255, or a hash length != 32; a string case is non-trivial per (class, outcome). " +
 			"distinct_nontrivial = number of DISTINCT cells: (type, hash length, value class of each algorithm field {0,enum 1-3,byte,u16,u16 low byte 0,u32,u32 low byte 0,max}, extension length, role) for hashes, " +
 			"(mutation class, outcome {rejected, accepted_invalid_hash, accepted_valid}) for strings",
-		"samples":                 mons[0].samples,
-		"workers":                 ts.Workers,
-		"hashes_per_worker":       ts.HashesPerWorker,
-		"strings_per_worker":      ts.StringsPerWorker,
-		"distinct_iris_in_map":    distinctIRIs,
-		"known_finding_hits":      res.KnownHits,
+		"samples":                    mons[0].samples,
+		"workers":                    ts.Workers,
+		"hashes_per_worker":          ts.HashesPerWorker,
+		"strings_per_worker":         ts.StringsPerWorker,
+		"distinct_iris_in_map":       distinctIRIs,
+		"known_finding_hits":         res.KnownHits,
 		"parse_accepts_invalid_hash": tot["parse_accepts_invalid_hash"],
 	}
 	perClass := map[string]any{}
